@@ -8,6 +8,9 @@
 //   - the full stream of NewIteratorWithPrefix(p) and IteratePrefix(db,p) for every p ∈ Σ
 //
 // with the model. Batches must be invisible until written and then visible entirely, in their own order.
+// Macro letters ("N filler operations into the open batch", "N filler keys into the store", N around the
+// thresholds of sort.Slice and of typical node / buffer sizes) bring big batches and big stores within the
+// depth bound; fillers are ordinary keys of the model.
 // Excluded, exactly as the property says: the error value returned for a missing key; empty values.
 package main
 
@@ -118,6 +121,33 @@ func (c *cfg) macro() bool { return len(c.fills)+len(c.dbFills) > 0 }
 
 func (c *cfg) build() {
 	c.ops = nil
+	if c.macro() {
+		// lean alphabet around the fill letters: the spellings and value combinations of the direct
+		// operations are the plain searches' business
+		for k := range c.keys {
+			c.ops = append(c.ops, op{opSet, k, 0, 0}, op{opDel, k, 0, 0})
+		}
+		if c.be.batch {
+			for k := range c.keys {
+				for v := range c.vals {
+					c.ops = append(c.ops, op{opBSet, k, v, 0})
+				}
+				c.ops = append(c.ops, op{opBDel, k, 0, 0})
+			}
+			for vr := 0; vr < c.variants; vr++ {
+				c.ops = append(c.ops, op{opBWrite, 0, 0, vr})
+			}
+			c.ops = append(c.ops, op{kind: opBReset})
+			for _, n := range c.fills {
+				c.ops = append(c.ops, op{kind: opBFill, k: n})
+			}
+		}
+		c.ops = append(c.ops, op{kind: opReopen})
+		for _, n := range c.dbFills {
+			c.ops = append(c.ops, op{kind: opDBFill, k: n})
+		}
+		return
+	}
 	for vr := 0; vr < c.variants; vr++ {
 		for k := range c.keys {
 			for v := range c.vals {
@@ -1012,7 +1042,8 @@ func main() {
 	r.Assume("Iterator.Seek, Domain, Stats, Print and concurrent use are outside the statement and not exercised")
 	r.Assume("a batch that has been written is only reused after Reset; keys and values passed to the store are never modified afterwards")
 	r.Assume("fsdb: NewBatch panics \"not yet implemented\" (it does not claim batches); its searches have no batch operations")
-	r.Assume("values are \"1\", \"22\" and (badger, thorough) 40 bytes; a batch holds at most 3 operations; bounds per search are listed under coverage.searches")
+	r.Assume("values are \"1\", \"22\" and (badger, thorough) 40 bytes; a batch holds at most 3 letters (a macro letter = N filler operations, N <= 257); bounds per search are listed under coverage.searches")
+	r.Assume("macro searches (name .../macro): lean alphabet (Set/Delete/batch Set/batch Delete on 1-2 keys, Write/WriteSync/Commit, Reset, reopen) + fill letters; a history there must contain a fill letter (at most 1; macro2: 2); fillers are checked through the iterator streams, lookups cover the 8 keys of the alphabet")
 	r.Assume("badger only: if the sub-process probe shows that Write after Reset kills the process, that order is reported once and disabled in the in-process search")
 	removeScratch(false)
 	r.Assume("disk backends run on tmpfs (/dev/shm); durability across crashes is not part of this property (close is orderly)")
